@@ -155,7 +155,7 @@ Holds(e, name) ==
     [] name = "C01_PeriodicCentral"    -> C01_ClosedPeriodic(g, bc, V, MatOf(o.Mconv))
     [] name = "C01_PeriodicUpwind"     -> C01_ClosedPeriodic(g, bc, V, MatOf(o.Mup))
     [] name = "C04_Solves" -> C04_Solves(g, FieldOf(g, cf.xstar), FieldOf(g, o.r_solve))
-    [] name = "C04_SameObject" -> o.flags.same_object
+    [] name = "C04_SameObject" -> o.flags.same_object /\ o.flags.terms_untouched
     [] name = "C04_SameAsMatrixPDE" ->
          C04_SameInterior(g, FieldOf(g, o.r_solve), IntFieldOf(g, o.r_matrix))
     [] name = "C04_ExternalSolver" ->
